@@ -818,3 +818,8 @@ for _p, _ths in (('C17', ['FV.Tie.C17_Send_regenerated', 'FV.Tie.C17_SendRaw_sti
 PROPS['C02']['lean_modules'] = PROPS['C02']['lean_modules'] + ['FluentVerif.Tie.CodecProps']
 PROPS['C02']['theorems'] = PROPS['C02']['theorems'] + ['FV.Tie.C02_Message_regenerated', 'FV.Tie.Message_enc_ok']
 PROPS['C02']['explanation'] = PROPS['C02']['explanation'] + " Restated over the regenerated encoder body: C02_Message_regenerated."
+
+for _p, _ths in (('C11', ['FV.Tie.C11_GetChunk_regenerated']), ('C10', ['FV.Tie.C10_GetChunk_regenerated'])):
+    PROPS[_p]['lean_modules'] = PROPS[_p]['lean_modules'] + ['FluentVerif.Tie.ChunkProps']
+    PROPS[_p]['theorems'] = PROPS[_p]['theorems'] + _ths
+    PROPS[_p]['explanation'] = PROPS[_p]['explanation'] + (" Restated over the regenerated body of GetChunk: " + ', '.join(t.split('.')[-1] for t in _ths) + ".")
